@@ -99,8 +99,11 @@ Step ==
        [] e.ev \in {"RdPayload", "RdPayErr", "RdPayClosed"} -> PayloadStep(e.a)
        [] e.ev = "SetLimit" ->
             \* a limit set by another goroutine while frames are being read cannot be ordered against the reader by the trace
+            \* ... and a limit set while a message is being read: the statement does not say which limit governs that message (the table
+            \* of the limit driver, WSRecv!MidOutcome, judges what holds under either reading)
             /\ limI' = e.a /\ limSure' = (limSure /\ (rdG = 0 \/ rdG = e.g))
-            /\ UNCHANGED <<vars, role, scripted, sentq, cur, rem, failed, msg, rdG, pingq, bad, skip>>
+            /\ msg' = IF msg.on THEN [msg EXCEPT !.sure = FALSE] ELSE msg
+            /\ UNCHANGED <<vars, role, scripted, sentq, cur, rem, failed, rdG, pingq, bad, skip>>
        [] ~Live -> Same
        \* ---------------- control frames ----------------
        [] e.ev = "CtlPayload" ->
